@@ -561,7 +561,8 @@ def run(tier, seed):
         ocases.append(c)
     run_net_cases(s3, ocases, exact=False)
     suites.append(s3)
-    return suites
+    from .. import extra
+    return list(suites) + [extra.suite_announce_all_accepted(tier, seed)]
 
 
 def replay(payload):
